@@ -3,7 +3,12 @@
 #define VERIF_H
 #ifndef VERIF_NATIVE
 #define IN(T, name) T name
-#define IN_ARR(T, name, N) T name[N]
+/* arrays are wrapped so that cbmc's trace records one assignment carrying every element */
+#define VERIF_CAT_(a, b) a##b
+#define VERIF_CAT(a, b) VERIF_CAT_(a, b)
+#define IN_ARR_(T, name, N, fn) struct name##_s { T a[N]; }; struct name##_s fn(void); \
+                                struct name##_s name##_w = fn(); T *name = name##_w.a
+#define IN_ARR(T, name, N) IN_ARR_(T, name, N, VERIF_CAT(nondet_arr_##name##_, __COUNTER__))
 unsigned char nondet_uchar(void);
 #define IN_BOOL(name) _Bool name = (_Bool)(nondet_uchar() & 1)
 #define VERIF_MAIN()
